@@ -528,12 +528,15 @@ fn check_multi(c: &MultiCase, info: &mut Info) -> Result<(), String> {
     Ok(())
 }
 
+crate::long_sub!(run_long_history, [18]);
+
 pub fn def() -> PropDef {
     PropDef {
         id: "C19",
         rule: "values of Fr, Fq12, G1, G2, G1Affine, G2Affine (subgroup points of every class incl. identity, walks P+[k]G, projective values in generated representatives) x both flags: bytes written (through a writer that takes them in generated chunk sizes) compared with the model image (32 / 576 / 48|96 / 96|192 bytes); streams read back through a chunking, counting reader (whole / byte-at-a-time / generated chunk sizes): valid image, every kind of proper prefix, trailing data, opposite flag, one field component replaced by p+k / p-1-k / 2^381 / all-ones / uniform, arbitrary point bytes from the C04 generator (every rejection class), uniform bytes, single bit flips, the negated point's image; sequences of related streams back to back and multi-item streams through one reader. Oracle: model decides from the bytes alone whether a value is due (then: Ok, exact consumption, value's canonical image equals the consumed bytes) or an error is due (then: Err, never a value or a panic). Non-trivial = stream differs from the valid image; distinct = distinct cases",
         needs_pairing: false,
         subs: vec![
+            Box::new(crate::engine::EnumSub { name: "long-history", rule: super::longhist::RULE, run: run_long_history, replay: super::longhist::replay, exhaustive: false }),
             Box::new(Sub { name: "serdes", rule: "serialize bytes == model image; deserialize outcome / consumption / value decided by the model from the bytes", quick: 24_000, thorough: 250_000, strategy: || boxed(ser_case_strategy()), check: check_ser }),
             Box::new(Sub { name: "related-streams", rule: "2..5 reads back to back of variants of ONE value's image (bit flips, replaced component, negated point, opposite flag, prefixes, the image again), each decided by the model from its own bytes (no dependence on earlier reads)", quick: 4_000, thorough: 50_000, strategy: || boxed(ser_seq_strategy()), check: check_ser_seq }),
             Box::new(Sub { name: "multi-item-streams", rule: "2..5 values of mixed types and flags concatenated and read back through one chunking reader: every item delivered with exact consumption until the first due error", quick: 4_000, thorough: 50_000, strategy: || boxed(multi_strategy()), check: check_multi }),
